@@ -15,7 +15,7 @@ Qed.
 Lemma ex_points_kept :
   (forall f i t s, s_pt (creinit f i t s) = s_pt s) /\ (forall i a b s, s_pt (ctune i a b s) = s_pt s).
 Proof.
-  split; [|reflexivity]. intros f i t s. unfold creinit. destruct (s_kind s); try reflexivity. destruct f; reflexivity.
+  split; [|reflexivity]. intros f i t s. unfold creinit. destruct (s_kind s); try reflexivity; destruct f; reflexivity.
 Qed.
 
 (* 2 x 2 lattice, weights pi(0,0)=1, pi(0,1)=2, pi(1,0)=3, pi(1,1)=4, exact Gibbs kernels *)
